@@ -17,7 +17,10 @@ ALPHA = 'abcXYZ 019.,;-_/()#é É ü Ü ñ Ñ \t\x07漢字語' + "'" + '\\$^*+?[
 
 def rstring(rng, lo=0, hi=60):
     n = rng.choice([0, 1, 2, 3, 5, 8, 13, 30, rng.randint(lo, hi)])
-    return ''.join(rng.choice(ALPHA) for _ in range(min(n, hi)))
+    s = ''.join(rng.choice(ALPHA) for _ in range(min(n, hi)))
+    if rng.random() < 0.08:       # line ends next to spaces, at either end
+        s = rng.choice(['', ' ', '\n', ' \n']) + s + rng.choice([' \n', '  \n', '\n ', '\n', ' \r\n', '\n\n'])
+    return s
 
 
 def idem_obs(lib, f, s):
